@@ -265,6 +265,20 @@ def run(ctx: Ctx) -> int:
         fn=addf,
     )
 
+    # ---------------- C14.g: a required init parameter is always offered ----------------------------------------
+    # _add_signature_parameter leaves out private parameters (leading underscore) - but only optional ones: a
+    # required `_x` that is not offered can neither be given (rejected as unknown) nor omitted (TypeError at build)
+    asp = ctx.func("_signatures:SignatureArguments._add_signature_parameter")
+    req_defs = [s for s in walk_local(asp) if isinstance(s, ast.Assign) and isinstance(s.targets[0], ast.Name) and isinstance(s.value, ast.Compare) and "inspect_empty" in ast.unparse(s.value) and isinstance(s.value.ops[0], ast.Eq)]
+    ctx.need(req_defs, "_add_signature_parameter: <is_required> = default == inspect_empty")
+    rq = req_defs[0].targets[0].id
+    priv = [n_ for n_ in walk_local(asp) if isinstance(n_, ast.Compare) and isinstance(n_.left, ast.Subscript) and isinstance(n_.left.slice, ast.Constant) and n_.left.slice.value == 0 and const_str(n_.comparators[0]) == "_"]
+    ctx.need(priv, "_add_signature_parameter: name[0] == '_'")
+    for pc_ in priv:
+        par = getattr(pc_, "_jv_parent", None)
+        ok = isinstance(par, ast.BoolOp) and isinstance(par.op, ast.And) and any(isinstance(v, ast.UnaryOp) and isinstance(v.op, ast.Not) and isinstance(v.operand, ast.Name) and v.operand.id == rq for v in par.values)
+        ctx.oblige("C14.g", ok, pc_, f"private parameters are left out only when they are optional (`not {rq} and ...`)" if ok else f"the private-name skip no longer requires `not {rq}`: a required init parameter named `_x` is not offered - giving it is rejected as an unknown key, omitting it is accepted and the constructor fails with a missing argument", fn=asp)
+
     # ---------------- C14.e: init_args kept across a class_path change are valid for the new class -----------
     # discard_init_args_on_class_path_change keeps an old init_arg only if the NEW class's parser accepts it; the
     # test is `_check_value_key` raising or not.  _check_value_key reads the lenient_check context variable and
